@@ -155,7 +155,11 @@ pub fn run(ctx: &mut Ctx) {
         if rl >= 4 {
             ctx.count("leading.words");
         }
-        let sid = if r.bool() { Some(gen::opaque_min(r, 1, 32)) } else { None };
+        // (present-but-empty is a value of its own: Some(&[]) is stored and returned as Some(&[]), not as None)
+        let sid = match r.below(8) { 0 => Some(Vec::new()), 1..=4 => Some(gen::opaque_min(r, 1, 32)), _ => None };
+        if matches!(&sid, Some(v) if v.is_empty()) {
+            ctx.count("constructed.sid-present-but-empty");
+        }
         // extension block: absent, opaque, or a well-formed list (incl. supported_versions naming ANOTHER version:
         // the accessors must still report the structure's own fields)
         let ext = match r.below(4) {
@@ -307,6 +311,7 @@ pub fn run(ctx: &mut Ctx) {
     // builds a hello from slices of a capture, e.g. a random taken as a longer slice than 32 bytes): the accessors are
     // functions of each field's own bytes, wherever the other fields live
     ctx.floor("overlap.cases", 4000);
+    ctx.floor("constructed.sid-present-but-empty", 1000);
     ctx.sweep("overlapping-views", 96, |ctx, idx| {
         let mut rng = Rng::new(idx ^ 0x0E71A9);
         let buf = rng.bytes(256);
